@@ -408,6 +408,9 @@ func genUCfg(r *Rng) UCfg {
 	nd := 1 + r.Intn(3)
 	for i := 0; i < nd; i++ {
 		d := UDef{Kind: []string{"k1", "k2", "k3", "k1"}[r.Intn(4)]}
+		if r.Chance(1, 16) {
+			d.Kind = "" // a definition with the empty kind: what a kind-less node resolves to when it is registered
+		}
 		nk := r.Intn(5)
 		for j := 0; j < nk; j++ {
 			d.Keys = append(d.Keys, Pick(r, umKeys))
